@@ -23,6 +23,10 @@ structure Eff where
   stopped : Bool := false
   settop : Bool := false
   flags : List (Nat × Bool) := []
+  /-- code positions remembered in locals (`const opval_t* p = m_CodePos`) -/
+  saved : List (Nat × Nat) := []
+  /-- a loop whose second iteration can end differently from its first (not covered by the exploration) -/
+  unstable : Bool := false
   deriving DecidableEq, Repr, Inhabited
 
 inductive Kind where
@@ -50,6 +54,16 @@ def run : Act → Eff → List (Kind × Eff)
   | .call a, e => (run a e).map fun r => (if r.1 = .returned then Kind.normal else r.1, r.2)
   | .setf i v, e => [(.normal, { e with flags := (i, v) :: e.flags })]
   | .iff i a b, e => if flagOf e i then run a e else run b e
+  | .savepos i, e => [(.normal, { e with saved := (i, e.dp) :: e.saved })]
+  | .restorepos i, e => [(.normal, { e with dp := (e.saved.lookup i).getD e.dp })]
+  | .loop b, e =>
+    -- zero, one or two iterations; a second iteration must not add an outcome the first lacks
+    let r1 := run b e
+    let r2 := r1.flatMap fun r => if r.1 = .normal then run b r.2 else []
+    let same (x y : Kind × Eff) : Bool := x.1 == y.1 && x.2.dhc == y.2.dhc && x.2.dhk == y.2.dhk && x.2.dp == y.2.dp
+      && x.2.jumped == y.2.jumped && x.2.stopped == y.2.stopped && x.2.settop == y.2.settop
+    let stable := r2.all fun x => r1.any fun y => same x y
+    (.normal, e) :: (if stable then r1 else r1.map fun r => (r.1, { r.2 with unstable := true }))
 
 def outcomes (a : Act) : List (Kind × Eff) := run a {}
 
@@ -64,11 +78,14 @@ def fallThrough (rs : List (Kind × Eff)) : List Eff :=
     have no error path and are outside the height discipline -/
 def usesSetTop (rs : List (Kind × Eff)) : Bool := rs.any (·.2.settop)
 
+def anyUnstable (rs : List (Kind × Eff)) : Bool := rs.any (·.2.unstable)
+
 /-- **confinement of one opcode**: all fall-through outcomes agree on (height, position); every
     raised outcome agrees with them, did not jump and did not end the thread -/
 def confined (variableEncoding : Bool) (a : Act) : Bool :=
   let rs := outcomes a
-  if usesSetTop rs then rs.all (fun r => r.1 != .raised)
+  if anyUnstable rs then false
+  else if usesSetTop rs then rs.all (fun r => r.1 != .raised)
   else
     match fallThrough rs with
     | [] => rs.all (fun r => r.1 != .raised)          -- pure control transfer: must not raise
@@ -168,6 +185,8 @@ theorem confined_sound {ve : Bool} {a : Act} (h : confined ve a = true) :
   intro r hr hk
   unfold confined at h
   simp only at h
+  split at h
+  · cases h
   split at h
   · -- parameter-binding opcodes never raise
     have := (List.all_eq_true.mp h) r hr
